@@ -27,7 +27,7 @@ func init() {
 		Batches:      func(tier string) int { return 16 },
 		ChildTimeout: func(string) time.Duration { return 60 * time.Minute },
 		Run: func(b *fw.B) {
-			n := fcHistories(b.Tier, 3000, 24000)
+			n := fcHistories(b.Tier, 20000, 400000)
 			maxOps := 40
 			if !fw.Quick(b.Tier) {
 				maxOps = 120
@@ -49,7 +49,7 @@ func init() {
 		Batches:      func(tier string) int { return 16 },
 		ChildTimeout: func(string) time.Duration { return 60 * time.Minute },
 		Run: func(b *fw.B) {
-			n := fcHistories(b.Tier, 2000, 32000)
+			n := fcHistories(b.Tier, 12000, 240000)
 			maxOps := 40
 			if !fw.Quick(b.Tier) {
 				maxOps = 100
@@ -71,7 +71,7 @@ func init() {
 		Batches:      func(tier string) int { return 16 },
 		ChildTimeout: func(string) time.Duration { return 60 * time.Minute },
 		Run: func(b *fw.B) {
-			n := fcHistories(b.Tier, 2000, 24000)
+			n := fcHistories(b.Tier, 12000, 160000)
 			maxOps := 40
 			if !fw.Quick(b.Tier) {
 				maxOps = 100
